@@ -61,6 +61,9 @@ def run(ctx):
     g4(ctx, R)
     g5(ctx, R)
     g6(ctx, R)
+    from .c03 import g9, t3p
+    g9(ctx, R)
+    t3p(ctx, R)
     # "has required every extension it uses": the three gates, registry ownership and its per-parse reset (rules of C07 / C13)
     from .c07 import gates
     from .c13 import h3, h2
@@ -388,7 +391,7 @@ def t3(ctx, R):
             ctx.violation("T3", cname, "no-reassign", "%s sets non_deterministic_args but does not override reassign_arguments" % cname,
                           witness="NotImplementedError out of parse()", **where)
         types = {t for s in e["args_definition"] for t in (s.get("type") or [])}
-        if types & {"test", "testlist"} and "get_expected_first" not in e["overrides"]:
+        if types & {"test", "testlist"} and "get_expected_first" not in e["overrides"] and "get_expected_first" in R.Command.methods:
             ok = False
             ctx.violation("T3", cname, "no-expected-first", "%s takes a test but does not override get_expected_first: `%s ;` style garbage is "
                           "not rejected at the next token" % (cname, e["name"]), **where)
@@ -1121,8 +1124,8 @@ EXPECTED_AFTER = {
     ("argument", "left_bracket"): {"string"},
     ("arguments", "left_parenthesis"): {"identifier"},
     ("arguments", "comma"): {"identifier"},
-    ("command", None): {"identifier"},
 }
+# (the token demanded after a block-taking control / a test-taking test is evaluated per command class: _first_token_by_class)
 EXPECTED_UNKEYED = {
     # function -> multiset of expected-sets installed without a token guard
     "check_command_completion": [{"semicolon"}, {"left_cbracket"}, {"comma", "right_parenthesis"}],
@@ -1188,33 +1191,97 @@ def p12(ctx, R):
             ctx.violation("P12", f, "completion-sets:%s" % role, "%s installs the expected sets %s; the grammar needs %s" % (
                 role, sorted(map(sorted, got)), sorted(map(sorted, want))), node=f.node,
                 witness="after a complete test / command the wrong token is demanded (valid scripts rejected) or none (garbage accepted)")
-    # first token of commands that take a test
-    table = R.concrete()
-    for cname, e in sorted(table.items()):
-        want = EXPECTED_FIRST.get(e["name"])
-        c = ctx.program.cls(cname)
-        g = ctx.program.method(c, "get_expected_first") if c else None
-        if want is None:
-            continue
-        n += 1
-        rets = [r.value for r in walk_no_nested(g.node) if isinstance(r, ast.Return) and r.value is not None] if g else []
-        vals = [const_value(ctx.program, g, r) for r in rets]
-        if vals and all(v == want for v in vals):
-            ctx.holds("P12", "%s.get_expected_first() == %s" % (cname, want))
-        else:
-            ctx.violation("P12", g or cname, "expected-first:%s" % e["name"], "%s.get_expected_first() returns %s; after `%s` the grammar needs %s"
-                          % (cname, vals, e["name"], want), node=g.node if g else None, file=R.cmod.relpath, line=e["lineno"],
-                          witness="`%s ;` style garbage is not rejected at the next token, or a valid test rejected" % e["name"])
+    # first token of commands that take a test: what is installed when such a command is adopted, evaluated per command class
+    # (finite-domain interpretation of the adopting state function with the class's table values; no code is run)
+    n += _first_token_by_class(ctx, R)
     ctx.need("P12", "transition obligations", n, 12)
-    # the test's own first-token set is installed when a test is adopted
-    adopt = [a for a in walk_no_nested(R.arguments.node) if isinstance(a, ast.Assign) and any(
-        isinstance(t, ast.Attribute) and t.attr.lstrip("_") == R.an("expected") for t in a.targets)
-        and isinstance(a.value, ast.Call) and call_name(a.value) == "get_expected_first"]
-    if adopt:
-        ctx.holds("P12", "on adopting a test its get_expected_first() becomes the expected set")
-    else:
-        ctx.violation("P12", R.arguments, "expected-first-not-installed", "the first-token expectation of an adopted test is not installed",
-                      node=R.arguments.node, witness="`if anyof true {...}` (missing parenthesis) is accepted")
+
+
+def _first_token_by_class(ctx, R):
+    from sa import fd
+    table = R.concrete()
+    exp_attr = None
+    for a in walk_no_nested(R.set_expected.node):
+        if isinstance(a, ast.Assign):
+            for t in a.targets:
+                if isinstance(t, ast.Attribute):
+                    exp_attr = t.attr
+    roles = {f.name for f in (R.command, R.arguments, R.argument, R.stringlist, R.up, R.completion, R.push_bracket, R.pop_bracket)}
+    count = 0
+    for fn, position in ((R.arguments, "test"), (R.command, "command")):
+        lookvars = [t.id for a in walk_no_nested(fn.node) if isinstance(a, ast.Assign) and isinstance(a.value, ast.Call)
+                    and call_name(a.value) == R.lookup.name for t in a.targets if isinstance(t, ast.Name)]
+        if len(set(lookvars)) != 1:
+            raise AnalysisError("P12", "%s: variable holding the looked-up command not identified" % fn.qualname)
+        var = lookvars[0]
+        for cname, e in sorted(table.items()):
+            want = EXPECTED_FIRST.get(e["name"])
+            if want is None or (position == "test") != (e.get("_type") == "test"):
+                continue
+            c = ctx.program.cls(cname)
+            gef = ctx.program.method(c, "get_expected_first") if c else None
+            gef_vals = []
+            if gef is not None:
+                gef_vals = [const_value(ctx.program, gef, r.value) for r in walk_no_nested(gef.node) if isinstance(r, ast.Return) and r.value is not None]
+
+            def oracle(interp, ex, name, recv, args, kw, st, e=e, gef_vals=gef_vals):
+                if name == R.lookup.name:
+                    return [(fd.Unknown("cmd"), ("lookup", None))]
+                if name == "get_type":
+                    return [(fd.Const(e.get("_type")), None)]
+                if name == "has_arguments":
+                    return [(fd.Const(bool(e["args_definition"])), None)]
+                if name == "get_expected_first":
+                    if len(gef_vals) == 1 and gef_vals[0] is not TOP:
+                        return [(fd.Const(gef_vals[0]), None)]
+                    return [(fd.Unknown("first"), None)]
+                if name == "check_next_arg":
+                    return [(fd.Const(True), None)]
+                if name and name.startswith("self."):
+                    m = name[5:]
+                    if m == R.set_expected.name:
+                        vals = tuple(a.v if isinstance(a, fd.Const) else None for a in args)
+                        return [(fd.Const(None), ("expect", vals))]
+                    if m in roles:
+                        return [(fd.Const(True), ("role", m))]
+                    if m in R.Parser.methods:
+                        return [(fd.Unknown(m), None)]
+                return None
+            params = fn.params
+            env = {params[1]: fd.Const("identifier"), params[2]: fd.Const(e["name"].encode()),
+                   "%s.variable_args_nb" % var: fd.Const(bool(e.get("variable_args_nb"))), "%s.accept_children" % var: fd.Const(bool(e.get("accept_children"))),
+                   "%s.name" % var: fd.Const(e["name"]), "%s.non_deterministic_args" % var: fd.Const(bool(e.get("non_deterministic_args"))),
+                   "%s.must_follow" % var: fd.Const(e.get("must_follow")), "%s.extension" % var: fd.Const(e.get("extension"))}
+            it = fd.Interp(fn.node, R.Parser.name, oracle, loop_unroll=1, max_depth=1)
+            try:
+                paths = it.run(env)
+            except fd.TooManyPaths:
+                raise AnalysisError("P12", "path explosion in %s" % fn.qualname)
+            count += 1
+            got = set()
+            for p in paths:
+                if p.kind != "return" or fd.truth(p.value) is False or not any(ev[0] == "lookup" for ev in p.events):
+                    continue
+                installed = None
+                # the set in force when the function hands over (to the completion check or to its caller)
+                for ev in p.events:
+                    if ev[0] == "expect":
+                        installed = tuple(ev[1])
+                    elif ev[0] == "role" and ev[1] == R.completion.name:
+                        break
+                key = "%s.%s" % (fn.params[0], exp_attr)
+                if installed is None and exp_attr is not None and key in p.env and isinstance(p.env[key], fd.Const) and p.env[key].v is not None:
+                    installed = tuple(p.env[key].v)
+                got.add(installed)
+            if got == {tuple(want)}:
+                ctx.holds("P12", "%s adopted in %s position: %s expected next" % (e["name"], position, want))
+            else:
+                ctx.violation("P12", fn, "expected-first:%s" % e["name"], "after `%s` in %s position the expected set is %s; the grammar needs %s" % (
+                    e["name"], position, sorted(map(str, got)), want), node=fn.node,
+                    witness="`%s ,` / `%s ;` style garbage is not rejected at the next token, or a valid test is rejected" % (e["name"], e["name"]))
+    if count < 4:
+        raise AnalysisError("P12", "only %d first-token evaluations" % count)
+    return count
 
 
 def _by_role(R, role):
@@ -1370,6 +1437,31 @@ def p15(ctx, R):
         if not verb:
             ctx.violation("P15", g, "value-altered:%s" % norm(a1)[:40], "a token's text is not passed to the command verbatim: %s" % norm(a1), node=c,
                           witness="argument values in the tree differ from the source")
+        else:
+            # the codec must be able to decode every text the token classes of this branch can carry
+            enc = const_value(ctx.program, g, a1.args[0]) if a1.args else "utf-8"
+            for k_ in a1.keywords:
+                if k_.arg == "encoding":
+                    enc = const_value(ctx.program, g, k_.value)
+            errs = const_value(ctx.program, g, a1.args[1]) if len(a1.args) > 1 else next(
+                (const_value(ctx.program, g, k_.value) for k_ in a1.keywords if k_.arg == "errors"), "strict")
+            wide = []
+            for t in sorted(toks):
+                try:
+                    if rx.byteset(R.pattern(t)) >> 128:
+                        wide.append(t)
+                except (AnalysisError, rx.Undecidable):
+                    wide.append(t)
+            utf8 = isinstance(enc, str) and enc.lower().replace("_", "-") in ("utf-8", "utf8")
+            if wide and not utf8:
+                ctx.violation("P15", g, "value-codec:%s" % enc, "the text of %s tokens (any byte) is decoded as %r: non-ASCII text that is valid UTF-8 is "
+                              "refused" % ("/".join(wide), enc), node=c, witness='`fileinto "Entw\u00fcrfe";` is rejected')
+            elif wide and errs not in ("strict", TOP):
+                ctx.violation("P15", g, "value-codec-errors:%s" % errs, "the text of %s tokens is decoded with errors=%r: bytes that are not valid "
+                              "UTF-8 are silently replaced in the tree" % ("/".join(wide), errs), node=c,
+                              witness="a script with a Latin-1 byte in a string is accepted with U+FFFD in the value")
+            elif wide:
+                ctx.holds("P15", "%s: %s tokens decoded as UTF-8 (strict)" % (g.qualname, "/".join(wide)))
     for t, w in want.items():
         if got.get(t) == w:
             ctx.holds("P15", "%s token -> %s argument" % (t, w))
